@@ -24,6 +24,7 @@ def run(prog, chk):
         "anchor propagation: the only mutation of the composite's anchors is appending entries of to_add; an entry is only created when no existing anchor of the composite starts with that name; mark adjustment only rewrites existing entries; each position is the base anchor mapped through its own component's transformation (R15.4)",
         "transformations filter: included bases are transformed (recursively) before the composite is replayed; components of already transformed bases are compensated with the inverse matrix; all anchors, the advance width and height are mapped; matrix build order (R15.5)",
         "components are only resolved into contours by util.decomposeCompositeGlyph; no other decomposing pen or component removal outside reviewed functions (R15.6, shared with C01 / C02)",
+        "per-run accumulators of the interpolatable filters are per master inside the loop over the glyph sets: a name-keyed memo shared by all masters would let the first master's transformations stand for the others (R15.7, shared with C09)",
     ]
     chk.not_decided += ["affine arithmetic and exactness", "rendering equality itself"]
     chk.guard(c01.r012, prog, chk, "R15.1")
@@ -33,6 +34,8 @@ def run(prog, chk):
     chk.guard(c02.r0210, prog, chk, "R15.3")
     chk.guard(r154, prog, chk)
     chk.guard(r155, prog, chk)
+    from .c09 import check_master_isolation
+    chk.guard(check_master_isolation, prog, chk, "R15.7")
 
 
 # ----------------------------------------------------------------------------- decomposition is done in one place
@@ -173,10 +176,10 @@ def r154(prog, chk):
                message=f"{f.short}: an appended anchor is not an entry of the collected to_add map with its own name and coordinates")
     # (b) an entry is only created when no existing anchor starts with the name
     cs = conds(prog, f, add[0])
-    guard = [g for g in cs if isinstance(g.test, ast.UnaryOp) and isinstance(g.test.op, ast.Not) and isinstance(g.test.operand, ast.Call) and A.callee_name(g.test.operand) == "any" and g.polarity is True]
+    guard = [g for g in cs if isinstance(g.test, ast.Call) and A.callee_name(g.test) == "any" and g.polarity is False]
     ok = len(guard) == 1
     if ok:
-        ge = guard[0].test.operand.args[0]
+        ge = guard[0].test.args[0]
         loops = [a for a in ix.ancestors(add[0]) if isinstance(a, ast.For)]
         lv = A.target_names(loops[0].target)[0]
         ok = isinstance(ge, ast.GeneratorExp) and T(ge.generators[0].iter) == f"{comp}.anchors" and isinstance(ge.elt, ast.Call) and A.callee_name(ge.elt) == "startswith" and T(ge.elt.args[0]) == lv \
